@@ -55,7 +55,7 @@ var froms = []string{"", "juliet@example.com/balcony", "me@example.net", "@@bad"
 var tos = []string{"", "me@example.net/res"}
 var payloads = []string{"", `<q xmlns='urn:q'/>`, `<iq xmlns='urn:q' id='a' type='result'/>`, `text`, `<other xmlns='urn:other'><q xmlns='urn:q'/></other>`}
 
-const nPrograms = 18
+const nPrograms = 19
 
 // program writes to the encoder per the chosen behaviour; returns how many
 // matching replies (top-level iq, type result|error, request id) it wrote and
@@ -135,6 +135,10 @@ func program(p int, t xmlstream.TokenReadEncoder, r req) (matching int, herr err
 		t.EncodeToken(w)
 		t.EncodeToken(w.End())
 		iq("-", r.id)
+	}
+	if p == 18 {
+		// writes nothing and fails with a stanza-level error value
+		herr = stanza.Error{Type: stanza.Cancel, Condition: stanza.ItemNotFound}
 	}
 	if p == 17 {
 		// fails with an error that wraps io.EOF (eg. a decoder that ran out of
@@ -282,6 +286,9 @@ func body(c *nd.Ctx) nd.Result {
 		invalidType := r.kind == "iq" && r.typ != "result" && r.typ != "error"
 		if auto != 0 && !invalidType {
 			return fail("auto-reply:for-non-request", "an automatic service-unavailable was sent: %s", out)
+		}
+		if replies > matching && !invalidType {
+			return fail("auto-reply:for-non-request", "%d reply IQs with the stanza's id are on the wire, the handler wrote %d: %s", replies, matching, out)
 		}
 		return res
 	}
